@@ -329,6 +329,7 @@ pub fn run_semantic(prop: &str, trace: &Trace, env: &Env, opts: &SemOpts) -> Run
                 rep.mix_obs(&o.short());
                 rep.count("session.rerun_without_new_text");
                 match &o {
+                    CallObs::Unwound(p) if p.msg.contains("SIMRULE-UNWIND") => { rep.count("rule.unwind"); rep.unjudged += 1; }
                     CallObs::Unwound(p) => rep.violate("O-model", format!("{}:{}", prop, p.key()), ei, format!("evaluating the session again (text {:?}) panicked: {} at {} in {}", rendered_line, p.msg, p.loc, p.func)),
                     CallObs::Returned { lines, .. } => {
                         match (lines.first(), &line) {
@@ -366,6 +367,14 @@ pub fn run_semantic(prop: &str, trace: &Trace, env: &Env, opts: &SemOpts) -> Run
                 rep.clock_reads += clk.values.len() as u64;
                 rep.mix_obs(&o.short());
                 let lines = match &o {
+                    CallObs::Unwound(p) if p.msg.contains("SIMRULE-UNWIND") => {
+                        // injected fault: a callback unwound and the caller caught it. The evaluation is lost; what
+                        // its earlier lines bound is unknown to the model; everything afterwards is judged as usual
+                        rep.count("rule.unwind");
+                        rep.unjudged += 1;
+                        if is_session { if let Some(em) = session_env.get_mut(&ev.actor) { for l in text.lines.iter() { if let Line::Sem(Stmt::Assign { name, .. }) | Line::Sem(Stmt::FailAssign { name, .. }) = l { em.vals.remove(&name.key()); em.poisoned.insert(name.key()); } } } }
+                        continue;
+                    }
                     CallObs::Unwound(p) => {
                         rep.violate("O-model", format!("{}:{}", prop, p.key()), ei, format!("evaluating {:?} panicked: {} at {} in {}", full, p.msg, p.loc, p.func));
                         continue;
